@@ -62,6 +62,7 @@ type Contract struct {
 	Assigns  []ast.Expr
 	HasAssigns bool
 	Lemmas   []ast.Expr
+	Cuts     []*Clause // intermediate facts proved at exit, in order, then available to the ensures
 	Loops    map[int]*LoopSpec
 	// veckernel sugar
 	Vec *VecSpec
@@ -234,6 +235,12 @@ func handleLine(cur **Contract, out *[]*Contract, pkgPath, text, line string) er
 		} else {
 			c.Ensures = append(c.Ensures, cl)
 		}
+	case "cut":
+		cl, err := parseClause(rest, line)
+		if err != nil {
+			return err
+		}
+		c.Cuts = append(c.Cuts, cl)
 	case "assigns":
 		c.HasAssigns = true
 		es, err := parseExprList(rest, line)
